@@ -5216,6 +5216,17 @@ class FlowIRConcrete(object):
 
         possible_errors = []
 
+        variable_reference = re.compile(FlowIR.VariablePattern)
+
+        def keep_lazy(unresolved, resolved):
+            """A global/stage variable whose value still references a variable after interpolation (e.g. `replica`
+            in a primitive graph) can only be resolved by the components that use it, with *their* scope of
+            variables. Such a value must not be stored half-resolved (the other variables it references would be
+            frozen to their global/stage values): keep it untouched, as the replicated FlowIR does."""
+            if isinstance(resolved, string_types) and variable_reference.search(resolved):
+                return unresolved
+            return resolved
+
         # VV: resolve global variables
         global_default_variables = self.get_default_global_variables() if platform != FlowIR.LabelDefault else {}
         global_platform_variables = self.get_platform_global_variables(platform)
@@ -5282,10 +5293,10 @@ class FlowIRConcrete(object):
 
             for name in this_stage_vars:
                 try:
-                    this_stage_vars[name] = FlowIR.interpolate(
+                    this_stage_vars[name] = keep_lazy(this_stage_vars[name], FlowIR.interpolate(
                         this_stage_vars[name], context, label='variables.default.stages.%d.%s' % (stage_index, name),
                         is_primitive=is_primitive
-                    )
+                    ))
                 except experiment.model.errors.FlowIRVariableUnknown as e:
                     flowirLogger.warning('While interpolating stage index variables: %s' % e.message)
                     possible_errors.append(e)
@@ -5303,10 +5314,14 @@ class FlowIRConcrete(object):
         environments = default_environments
         environments.update(platform_environments)
 
+        unresolved_global_variables = global_variables
         global_variables = FlowIR.fill_in(
             global_variables, context=global_variables, flowir=self._flowir, ignore_errors=True,
             label='global variables for environments', is_primitive=is_primitive
         )
+        global_variables = {
+            name: keep_lazy(unresolved_global_variables[name], global_variables[name]) for name in global_variables
+        }
 
         for env_name in environments:
             env_variables = global_variables.copy()
